@@ -96,16 +96,42 @@ func jsonQuote(s string) string {
 }
 
 // render appends the JSON text of n as pieces.
-func (n *jnode) render(ps *[]piece) {
+func (n *jnode) render(ps *[]piece) { n.renderOpt(ps, true) }
+
+// jsonRawOf: the text of a symbolic string inside a JSON document written WITHOUT HTML escaping. The default rendering
+// stands for the escaped form under the standing assumption that symbolic strings need no escaping; the raw form equals
+// it exactly when the string holds none of < > & (which the default encoder would have escaped).
+var jsonRawTerm = map[string]string{}
+
+func jsonRawOf(t string) string {
+	if r, ok := jsonRawTerm[t]; ok {
+		return r
+	}
+	r := X.fresh("jsonraw", "String")
+	X.addPC("(=> (and (not (str.contains " + t + " \"<\")) (not (str.contains " + t + " \">\")) (not (str.contains " + t + " \"&\"))) (= " + r + " " + t + "))")
+	X.addPC("(=> (or (str.contains " + t + " \"<\") (str.contains " + t + " \">\") (str.contains " + t + " \"&\")) (not (= " + r + " " + t + ")))")
+	jsonRawTerm[t] = r
+	return r
+}
+
+func (n *jnode) renderOpt(ps *[]piece, escapeHTML bool) {
 	lit := func(s string) { *ps = append(*ps, piece{s: s}) }
 	str := func(v value) {
 		switch s := v.(type) {
 		case string:
-			lit(jsonQuote(s))
+			if escapeHTML {
+				lit(jsonQuote(s))
+			} else {
+				lit(jsonQuoteRaw(s))
+			}
 		case symStr:
 			// assumption: a symbolic string needs no JSON escaping
 			lit(`"`)
-			*ps = append(*ps, piece{s: s.t, sym: true})
+			if escapeHTML {
+				*ps = append(*ps, piece{s: s.t, sym: true})
+			} else {
+				*ps = append(*ps, piece{s: jsonRawOf(s.t), sym: true})
+			}
 			lit(`"`)
 		case symAtom:
 			lit(`"`)
@@ -152,7 +178,7 @@ func (n *jnode) render(ps *[]piece) {
 			if i > 0 {
 				lit(",")
 			}
-			e.render(ps)
+			e.renderOpt(ps, escapeHTML)
 		}
 		lit("]")
 	case jObj:
@@ -163,7 +189,7 @@ func (n *jnode) render(ps *[]piece) {
 			}
 			str(k)
 			lit(":")
-			n.vals[i].render(ps)
+			n.vals[i].renderOpt(ps, escapeHTML)
 		}
 		lit("}")
 	}
@@ -173,6 +199,20 @@ func (n *jnode) text() value {
 	var ps []piece
 	n.render(&ps)
 	return joinPieces(ps)
+}
+
+func (n *jnode) textRaw() value {
+	var ps []piece
+	n.renderOpt(&ps, false)
+	return joinPieces(ps)
+}
+
+func jsonQuoteRaw(s string) string {
+	var buf bytes.Buffer
+	enc := json.NewEncoder(&buf)
+	enc.SetEscapeHTML(false)
+	_ = enc.Encode(s)
+	return strings.TrimSuffix(buf.String(), "\n")
 }
 
 func concreteBytes(s string) value {
@@ -1514,10 +1554,18 @@ func init() {
 			return err
 		}
 		var out value
-		if n.concrete() {
-			out = concreteBytes(n.text().(string) + "\n")
+		escapeHTML := true
+		if b, ok := enc[2].(bool); ok {
+			escapeHTML = b
+		}
+		txt := n.text()
+		if !escapeHTML {
+			txt = n.textRaw()
+		}
+		if c, ok := txt.(string); ok {
+			out = concreteBytes(c + "\n")
 		} else {
-			out = symBytes{str: joinPieces([]piece{toPiece(n.text()), {s: "\n"}})}
+			out = symBytes{str: joinPieces([]piece{toPiece(txt), {s: "\n"}})}
 		}
 		w := enc[0].(iface)
 		if w.t == nil {
